@@ -166,6 +166,13 @@ func (e exclSet) with(d *Dec) exclSet {
 	return append(out, d)
 }
 
+func (e exclSet) with2(d *Dec) exclSet {
+	if d == nil {
+		return e
+	}
+	return e.with(d)
+}
+
 func (e exclSet) key() string {
 	if len(e) == 0 {
 		return ""
@@ -300,6 +307,9 @@ func (m *Model) must(start node) (regs []*Reg, decs []*Dec) {
 		n := q[0]
 		q = q[1:]
 		for _, p := range n.f.Params {
+			if m.hidden(n, p.K) {
+				continue
+			}
 			if p.K.Group != "" {
 				ds := m.decsOfX(n.s, p.K, n.excl)
 				for _, d := range ds {
@@ -366,7 +376,17 @@ func (m *Model) availParams(n node) int {
 	return res
 }
 
+// hidden reports whether an on-stack decorator other than the consumer itself
+// would apply to this lookup: the outcome then depends on evaluation order
+// (decorator-mediated cycle, DESIGN section 10.1).
+func (m *Model) hidden(n node, k Key) bool {
+	return len(m.decsOf(n.s, k, n.self)) != len(m.decsOfX(n.s, k, n.excl.with2(n.self)))
+}
+
 func (m *Model) availParam(n node, p Param) int {
+	if m.hidden(n, p.K) {
+		return avUnknown
+	}
 	if p.K.Group != "" {
 		res := avYes
 		ds := m.decsOfX(n.s, p.K, n.excl)
@@ -533,6 +553,9 @@ func (m *Model) mustCycleFrom(start node) bool {
 	succ := func(n node) []nk {
 		var out []nk
 		for _, p := range n.f.Params {
+			if m.hidden(n, p.K) {
+				continue
+			}
 			if p.K.Group != "" {
 				ds := m.decsOfX(n.s, p.K, n.excl)
 				for _, d := range ds {
